@@ -132,7 +132,7 @@ func keyFor(t *rapid.T, height int, pool []felt.Felt) felt.Felt {
 }
 
 func TestPropTrieRootIsFunctionOfSet(t *testing.T) {
-	stats.Check(t, stats.Budget{Quick: 1200, Thorough: 20000},
+	stats.Check(t, stats.Budget{Quick: 2500, Thorough: 20000},
 		"put/overwrite/delete(zero)/zero-absent/commit/reopen/hash sequences on core/trie and core/trie2 (heights 251, 64, 8; Pedersen, Poseidon) vs recursive reference MPT; non-trivial = sequence contains a structural event on the model (edge split, collapse after delete, re-insert after delete, zero write to absent key, reopen between updates)",
 		func(rt *rapid.T, c *stats.Case) {
 			height := rapid.SampledFrom([]int{251, 251, 64, 8, 8, 3}).Draw(rt, "height")
@@ -421,7 +421,7 @@ func scratch() string {
 }
 
 func TestPropChainStateRoot(t *testing.T) {
-	stats.Check(t, stats.Budget{Quick: 150, Thorough: 2500},
+	stats.Check(t, stats.Budget{Quick: 400, Thorough: 2500},
 		"generated chains (1-8 blocks, 4 protocol versions, state diffs consistent with the abstract state) stored on legacy and trie2 backends, memory or Pebble with restarts between blocks; every block is sealed with the REFERENCE state root so a disagreement shows as a rejected valid block; Finalise/Simulate roots are compared with the reference; non-trivial = chain has >= 3 blocks and contains a zero write, a same-value rewrite, a class replacement, a system-contract write or a CASM migration",
 		func(rt *rapid.T, c *stats.Case) {
 			u := gen.NewUniverse(rt)
